@@ -171,3 +171,14 @@ def switch_cases(switch_node):
 def find_switch_on(fn, pred):
     """switch statements of fn whose scrutinee satisfies pred(node)"""
     return [n for n in fn.nodes if n.k == "switch" and pred(n.kids[0])]
+
+
+def wraps(n, name):
+    """is expression n the constant constructor `name` (janet_wrap_nil / janet_wrap_false ...)?  It is a macro in the
+    nan-boxed build and a function call with -DJANET_NO_NANBOX."""
+    n = strip_casts(n)
+    if n is None:
+        return False
+    if name in n.macro_names():
+        return True
+    return n.k == "call" and n.callee == name
